@@ -45,12 +45,22 @@ def run(res, f, tier):
         c0 = evalorder.okv(evalorder.child(kind, 0))
         neg = kind == "NotEquals"
         bad_paths = []
+        none_path_seen = False
         for p in t["rows"].get(kind, []):
             for conds, events, ret in dispatch.canon_path(p, t["opfns"]):
-                if (c0, "is None") in conds and ret != "Ok(Bool(%s))" % ("True" if neg else "False"):
-                    bad_paths.append({"when": sorted("%s %s" % c for c in conds), "result": ret})
+                if (c0, "is None") in conds:
+                    none_path_seen = True
+                    if ret != "Ok(Bool(%s))" % ("True" if neg else "False"):
+                        bad_paths.append({"when": sorted("%s %s" % c for c in conds), "result": ret})
+                elif ret.startswith("Ok(") and ret not in ("Ok(Bool(True))", "Ok(Bool(False))"):
+                    # the structural comparison may only be reached once the left value is known not to be None
+                    if not any(a == c0 and b.startswith("is ") and b != "is None" for a, b in conds):
+                        bad_paths.append({"when": sorted("%s %s" % c for c in conds), "result": ret,
+                                          "why": "the comparison is reached without a test that the left value is not None"})
                 if ret.startswith("Err(") and "Err.0" not in ret:
                     bad_paths.append({"when": sorted("%s %s" % c for c in conds), "result": ret})
+        if not none_path_seen:
+            bad_paths.append({"when": [], "result": "no path tests the left value for None"})
         if bad_paths:
             mm = mm + [{"kind": kind, "missing": [], "unexpected": bad_paths}]
     for kind, what in (("Equals", "left None => false without evaluating the right operand; right None => false"),
